@@ -232,11 +232,15 @@ class Lab:
         self.broker.transact(trade)
         return self.ledger.trade(i, dq)
 
-    def rebalancing(self, targets, measure, dt, margin=0.0, fractional=True):
+    def rebalancing(self, targets, measure, dt, margin=0.0, fractional=True, order=None):
         self.reb_time = max(self.reb_time, self.now) + timedelta(seconds=max(1, int(dt)))
         self.now = self.reb_time
-        cs = [self.contracts[i] for i, w in enumerate(targets) if w is not None]
-        ws = [w for w in targets if w is not None]
+        idx = [i for i, w in enumerate(targets) if w is not None]
+        if order:
+            # the request may list the contracts in any order
+            idx = sorted(idx, key=lambda i: (order[i % len(order)], i))
+        cs = [self.contracts[i] for i in idx]
+        ws = [targets[i] for i in idx]
         return Rebalancing(contracts=cs, allocation=ws, measure=measure, margin=margin,
                            fractional=fractional, time=self.reb_time)
 
@@ -377,8 +381,9 @@ def histories(draw, tier="quick", margined_bias=False, max_ops=40):
 
 # ------------------------------------------------------------------------------------ history interpreter
 
-def run_history(case, oracle, res, swap=False, nlv_path=None):
-    """Interprets case["ops"] against a real broker and the ledger.
+def history_steps(case, oracle, res, out, swap=False, nlv_path=None):
+    """Generator: interprets case["ops"] against a real broker and the ledger, yielding after every executed op (so that
+    several accounts living in one process can be driven in alternation). out["lab"], out["stats"] are filled on entry.
 
     oracle == "c01": after EVERY op the broker's NLV equals the ledger (self-financing identity).
     oracle == "c05": margin law / NLV decomposition / weights at the observation points the property
@@ -386,11 +391,13 @@ def run_history(case, oracle, res, swap=False, nlv_path=None):
     nlv_path: optional list that receives the ledger-independent broker NLV after each op (twin runs).
     """
     lab = Lab(case, swap=swap)
+    out["lab"] = lab
     led = lab.ledger
     br = lab.broker
     n = lab.n
     stats = {"trades": 0, "adds_under_spread": 0, "flips": 0, "mult_spot_trades": 0, "rebalances": 0,
              "insolvent": False, "margined_open_max": 0, "short_margined": 0, "quote_moves_between": 0}
+    out["stats"] = stats
     last_trade_quote_version = [None] * n
     quote_version = [0] * n
 
@@ -517,20 +524,20 @@ def run_history(case, oracle, res, swap=False, nlv_path=None):
             last_trade_quote_version[i] = quote_version[i]
             res.tag("T-%s-%s%s" % (op[2], "margined" if lab.margined[i] else "spot", "-spread" if spread_on else ""))
             if not check_positions(tag):
-                return lab, stats
+                return
             if oracle == "c05" and not check_margins([i], tag):
-                return lab, stats
+                return
         elif kind == "M":
             i = op[1]
             if i < 0:
                 br.marking_to_market()
                 if oracle == "c05" and not check_margins(range(n), tag):
-                    return lab, stats
+                    return
             else:
                 i = i % n
                 br.marking_to_market(lab.contracts[i])
                 if oracle == "c05" and not check_margins([i], tag):
-                    return lab, stats
+                    return
         elif kind == "V":
             what = op[1]
             solvent = led.nlv() > 1e-6 * led.scale()
@@ -549,7 +556,7 @@ def run_history(case, oracle, res, swap=False, nlv_path=None):
             else:
                 br.net_liquidation_value(raise_if_broke=False)
             if oracle == "c05" and not check_decomposition(tag):
-                return lab, stats
+                return
         elif kind == "R":
             targets = list(op[1])[:n] + [None] * max(0, n - len(op[1]))
             # Targets whose position would fall inside the documented epsilon snapping band
@@ -579,10 +586,10 @@ def run_history(case, oracle, res, swap=False, nlv_path=None):
             if oracle == "c09" and nlv_at_decision < -1e-9 * led.scale():
                 if not broke_before:
                     res.fail("a rebalance was executed on an account whose NLV is %.12g <= 0 (op %s)" % (nlv_at_decision, tag))
-                    return lab, stats
+                    return
                 if [lab.code_q(j) for j in range(n)] != q_at_decision or len(br.track_record) != len_at_decision:
                     res.fail("a rebalance refused for insolvency changed positions or the track record (op %s)" % tag)
-                    return lab, stats
+                    return
                 res.tag("rebalance-refused-while-broke")
             if isinstance(reb.profit_on_idle_cash, float) or hasattr(reb.profit_on_idle_cash, "__float__"):
                 led.interest += float(reb.profit_on_idle_cash)
@@ -594,15 +601,15 @@ def run_history(case, oracle, res, swap=False, nlv_path=None):
                 res.tag("ruined-by-trading-costs")
                 if led.nlv() > 1e-9 * led.scale():
                     res.fail("post-trade valuation raised EndOfEpisodeError although ledger NLV is %.12g > 0 (op %s)" % (led.nlv(), tag))
-                    return lab, stats
+                    return
                 stats["insolvent"] = True
                 if not check_positions(tag):
-                    return lab, stats
+                    return
             elif broke_before:
                 # refused: the account is (by the broker's own valuation) not solvent; ledger must agree
                 if led.nlv() > 1e-9 * led.scale():
                     res.fail("rebalance refused with EndOfEpisodeError although ledger NLV is %.12g > 0 (op %s)" % (led.nlv(), tag))
-                    return lab, stats
+                    return
                 stats["insolvent"] = True
             else:
                 lab.apply_recorded_trades(reb)
@@ -610,11 +617,11 @@ def run_history(case, oracle, res, swap=False, nlv_path=None):
                 stats["trades"] += len(reb.trades)
                 res.tag("R-%s" % op[2])
                 if not check_positions(tag):
-                    return lab, stats
+                    return
                 if oracle == "c05":
                     # a rebalance ends with a valuation (context_post): every contract is current
                     if not check_decomposition(tag):
-                        return lab, stats
+                        return
         else:
             raise ValueError("unknown op %r" % (op,))
         if oracle == "c09":
@@ -629,22 +636,32 @@ def run_history(case, oracle, res, swap=False, nlv_path=None):
                 if raised != (model < 0):
                     res.fail("after op %s ledger NLV is %.12g but net_liquidation_value() %s" % (
                         tag, model, "raised EndOfEpisodeError" if raised else "returned %.12g" % got))
-                    return lab, stats
+                    return
                 quiet = br.net_liquidation_value(raise_if_broke=False)
                 if not abs(quiet - model) <= band:
                     res.fail("after op %s net_liquidation_value(raise_if_broke=False) = %.12g, ledger %.12g" % (tag, quiet, model))
-                    return lab, stats
+                    return
                 if model < 0:
                     stats["insolvent"] = True
         open_margined = sum(1 for i in range(n) if lab.margined[i] and led.q[i] != 0)
         stats["margined_open_max"] = max(stats["margined_open_max"], open_margined)
         if oracle == "c01" and not check_c01(tag):
-            return lab, stats
+            return
         if oracle == "c01-sparse" and kind == "V" and op[1] == "nlv" and not check_c01(tag):
-            return lab, stats
+            return
+        yield k
     if oracle == "c01-sparse":
         check_c01("end of history")
-    return lab, stats
+    return
+
+
+
+def run_history(case, oracle, res, swap=False, nlv_path=None):
+    """Interprets the whole history (see history_steps). Returns (lab, stats)."""
+    out = {}
+    for _ in history_steps(case, oracle, res, out, swap=swap, nlv_path=nlv_path):
+        pass
+    return out["lab"], out["stats"]
 
 
 @st.composite
